@@ -605,7 +605,7 @@ func (e *Env) evalCall(x *ast.CallExpr) TV {
 				e.fail(x, "%s needs func(i int) bool literal", id.Name)
 			}
 			v := fl.Type.Params.List[0].Names[0].Name
-			bv := e.vc.freshName("q_" + v)
+			bv := fmt.Sprintf("q_%s_d%d", v, e.inQuant)
 			n := e.clone()
 			n.names[v] = intTV(bv)
 			n.inQuant++
@@ -637,7 +637,7 @@ func (e *Env) evalCall(x *ast.CallExpr) TV {
 					if len(ls) != 1 {
 						e.fail(x, "quantifier variable must be scalar")
 					}
-					bv := e.vc.freshName("q_" + nm.Name)
+					bv := fmt.Sprintf("q_%s_d%d", nm.Name, e.inQuant)
 					vars = append(vars, [2]string{bv, ls[0].Sort})
 					ts := []string{bv}
 					n.names[nm.Name] = TV{build(t, &ts), t}
@@ -704,6 +704,17 @@ func (e *Env) evalCall(x *ast.CallExpr) TV {
 			}
 			inside := and(le(plus(sv.Off, lo), i), lt(i, plus(sv.Off, hi)))
 			return boolTV(forall([][2]string{{i, "Int"}}, implies(not(inside), and(cs...))))
+		case "bytesAt":
+			// bytesAt(buf, o, val): buf[o : o+len(val)] equals val, quantified over the absolute index of buf (pattern-friendly)
+			a := e.eval(x.Args[0]).V.(*SliceV)
+			o := e.eval(x.Args[1]).term()
+			b := e.eval(x.Args[2]).V.(*SliceV)
+			h := e.vc.byteHeap(e.st)
+			g := e.vc.freshName("q_g")
+			lo := plus(a.Off, o)
+			inside := and(le(lo, g), lt(g, plus(lo, b.Len)))
+			body := eq(sel2(h, a.Arr, g), sel2(h, b.Arr, plus(b.Off, minus(g, lo))))
+			return boolTV(forall([][2]string{{g, "Int"}}, "(! "+implies(inside, body)+" :pattern ("+sel2(h, a.Arr, g)+"))"))
 		case "sameSlice":
 			a := e.eval(x.Args[0]).V.(*SliceV)
 			b := e.eval(x.Args[1]).V.(*SliceV)
